@@ -79,3 +79,84 @@ func HLocation() {
 }
 
 func init() { vRegister("HLocation", HLocation) }
+
+// HLocationLong (C07 / C01): lines longer than the 200-byte quote limit. The file is
+// "<2 arbitrary bytes><filler of 'x'>\n<2 arbitrary bytes>zz\n": the length of the
+// first line (symbolic over 198..203 and 320, concretised by full enumeration) and
+// the index (symbolic choice among 30 boundary positions) are arbitrary; NewLocation
+// must not panic, line/column are exact, the quote is the line, cut to 197 bytes + "..."
+// when the line is longer than 200 bytes.
+func HLocationLong() {
+	lens := []int{198, 199, 200, 201, 202, 203, 320}
+	lsel := vInt("len", 0, len(lens)-1)
+	ll := lens[0]
+	for k := range lens {
+		if lsel == k {
+			ll = lens[k]
+			break
+		}
+	}
+	h := vBytes("h", 2)
+	t := vBytes("t", 2)
+	for _, b := range []byte{h[0], h[1], t[0], t[1]} {
+		vAssume(b != '\n' && b != '\r')
+	}
+	d := []byte{h[0], h[1]}
+	for len(d) < ll {
+		d = append(d, 'x')
+	}
+	d = append(d, '\n', t[0], t[1], 'z', 'z', '\n')
+	n := len(d)
+	// the index: symbolic choice among the positions around every boundary of the computation
+	// (file start, the 100-byte half window, the 197/200-byte cut, the line end, the second
+	// line, the end of the file and past it); made concrete per path
+	var cands []int
+	for _, c := range []int{0, 100, 197, ll, n} {
+		for k := c - 3; k <= c+3; k++ {
+			if k >= 0 && k <= n+2 {
+				cands = append(cands, k)
+			}
+		}
+	}
+	sel := vInt("idx", 0, len(cands)-1)
+	idx := 0
+	for k := range cands {
+		if sel == k {
+			idx = cands[k]
+			break
+		}
+	}
+	f := fs.NewFile("/vfs/f.jst", d)
+	loc := NewLocation(f, bytes.Index(idx))
+	vAssert(int(loc.Index) == idx, "c07-location-index")
+	if idx >= n {
+		vReach("beyond-end")
+		return
+	}
+	line, ls := 1, 0
+	if idx > ll {
+		line, ls = 2, ll+1
+	}
+	end := ll
+	if line == 2 {
+		end = n - 1
+	}
+	vAssert(int(loc.Line) == line, "c07-line")
+	vAssert(int(loc.Column) == idx-ls+1, "c07-column")
+	trim := func(b []byte) string {
+		i := 0
+		for i < len(b) && (b[i] == ' ' || b[i] == '\t') {
+			i++
+		}
+		return string(b[i:])
+	}
+	want := trim(d[ls:end])
+	if end-ls > 200 {
+		want = trim(d[ls:ls+197]) + "..."
+	}
+	vAssert(loc.Quote == want, "c07-quote-long-line")
+	vReach("inside")
+	vObserve("loc", idx, int(loc.Line), int(loc.Column), len(loc.Quote))
+}
+
+func init() { vRegister("HLocationLong", HLocationLong) }
